@@ -1348,6 +1348,134 @@ func c04Embedded(c *Ctx) {
 	}
 }
 
+// c04EmbeddedLayout: the layouts and values of ThriftWire once more with the first k fields moved into an embedded
+// struct (by value, and behind an embedded pointer): the package flattens embedded structs, so the bytes are those of
+// the flat struct - required fields of an embedded struct that holds nothing included - and decoding the bytes into
+// the embedding type gives the same fields back
+var c04EmbTypes sync.Map
+
+func c04EmbType(flat reflect.Type, k int, ptr bool) reflect.Type {
+	type key struct {
+		t   reflect.Type
+		k   int
+		ptr bool
+	}
+	if t, ok := c04EmbTypes.Load(key{flat, k, ptr}); ok {
+		return t.(reflect.Type)
+	}
+	var in, out []reflect.StructField
+	for i := 0; i < flat.NumField(); i++ {
+		if i < k {
+			in = append(in, flat.Field(i))
+		} else {
+			f := flat.Field(i)
+			f.Offset, f.Index = 0, nil
+			out = append(out, f)
+		}
+	}
+	for i := range in {
+		in[i].Offset, in[i].Index = 0, nil
+	}
+	it := reflect.StructOf(in)
+	et := it
+	if ptr {
+		et = reflect.PointerTo(it)
+	}
+	t := reflect.StructOf(append([]reflect.StructField{{Name: "Emb", Type: et, Anonymous: true}}, out...))
+	c04EmbTypes.Store(key{flat, k, ptr}, t)
+	return t
+}
+
+func c04ToEmb(flat reflect.Value, et reflect.Type, k int) reflect.Value {
+	ev := reflect.New(et).Elem()
+	inner := ev.Field(0)
+	if inner.Kind() == reflect.Pointer {
+		inner.Set(reflect.New(inner.Type().Elem()))
+		inner = inner.Elem()
+	}
+	for i := 0; i < flat.NumField(); i++ {
+		if i < k {
+			inner.Field(i).Set(flat.Field(i))
+		} else {
+			ev.Field(1 + i - k).Set(flat.Field(i))
+		}
+	}
+	return ev
+}
+
+func c04FromEmb(ev reflect.Value, ft reflect.Type, k int) reflect.Value {
+	flat := reflect.New(ft).Elem()
+	inner := ev.Field(0)
+	if inner.Kind() == reflect.Pointer {
+		if inner.IsNil() {
+			inner = reflect.New(inner.Type().Elem()).Elem()
+		} else {
+			inner = inner.Elem()
+		}
+	}
+	for i := 0; i < ft.NumField(); i++ {
+		if i < k {
+			flat.Field(i).Set(inner.Field(i))
+		} else {
+			flat.Field(i).Set(ev.Field(1 + i - k))
+		}
+	}
+	return flat
+}
+
+func c04EmbeddedLayout(c *Ctx, layout []tField, vals []tVal, salt int) {
+	for _, f := range layout {
+		if f.Ty == "UNION" {
+			return // (the member of a union points at a sibling field: not a value that can be moved)
+		}
+	}
+	l := tlift{salt}
+	flat := l.structValue(layout, vals)
+	want := tTreeGo(layout, flat)
+	k := thriftCase{Layout: layout, Vals: vals, Salt: salt, What: "embedded layout"}
+	for n := 1; n <= len(layout); n++ {
+		for _, ptr := range []bool{false, true} {
+			et := c04EmbType(flat.Type(), n, ptr)
+			ev := c04ToEmb(flat, et, n)
+			how := fmt.Sprintf("first %d of %d field(s) in a struct embedded by value", n, len(layout))
+			if ptr {
+				how = fmt.Sprintf("first %d of %d field(s) behind an embedded pointer", n, len(layout))
+			}
+			for _, pn := range protoNames {
+				p := protoOf(pn)
+				k.Proto = pn
+				var b1, b2 []byte
+				var e1, e2 error
+				c.Case()
+				c.Eval(2)
+				if pan := protect(func() { b1, e1 = thrift.Marshal(p, flat.Interface()); b2, e2 = thrift.Marshal(p, ev.Interface()) }); pan != "" || (e1 == nil) != (e2 == nil) {
+					c.Diverge("C04", "thrift.Marshal(the layout with "+how+")["+pn+"]", fmt.Sprintf("as the flat struct: err=%v", e1), fmt.Sprintf("err=%v %s", e2, pan), "", k)
+					return
+				}
+				if e1 != nil {
+					continue
+				}
+				if !hasTwoEntryMap(vals) && !bytes.Equal(b1, b2) {
+					c.Diverge("C04", "thrift.Marshal(the layout with "+how+")["+pn+"]", hex.EncodeToString(b1), hex.EncodeToString(b2), "", k)
+					return
+				}
+				for bi, b := range [][]byte{b2, b1} {
+					back := reflect.New(et)
+					var err error
+					if pan := protect(func() { err = thrift.Unmarshal(p, b, back.Interface()) }); pan != "" || err != nil {
+						c.Diverge("C04", "thrift.Unmarshal(Marshal(v))(the layout with "+how+")["+pn+"]", "nil error", fmt.Sprintf("%v %s bytes=%x (source %d)", err, pan, b, bi), "", k)
+						return
+					}
+					if got := tTreeGo(layout, c04FromEmb(back.Elem(), flat.Type(), n)); got != want {
+						c.Diverge("C04", "thrift.Unmarshal(Marshal(v))(the layout with "+how+")["+pn+"]", want, got+fmt.Sprintf(" bytes=%x", b), "", k)
+						return
+					}
+				}
+			}
+		}
+	}
+}
+
 func c04Vector(c *Ctx, raw stdjson.RawMessage) {
 	v, ok := parseThriftVec(c, "C04", raw)
 	if !ok {
@@ -1359,6 +1487,8 @@ func c04Vector(c *Ctx, raw stdjson.RawMessage) {
 		c.Case()
 		c04Run(c, thriftCase{Layout: v.Layout, Vals: v.Vals, Salt: salt, Hist: c04Histories[r.intn(len(c04Histories))]})
 	}
+	// the same layout and values with fields moved into embedded structs
+	c04EmbeddedLayout(c, v.Layout, v.Vals, r.intn(tMaxTable))
 	// another conformant encoding of the same content: the entries of every map in the opposite order
 	if hasTwoEntryMap(v.Vals) && len(v.BinRevAsIs) > 0 {
 		for _, salt := range []int{0, 1 + r.intn(tMaxTable-1)} {
@@ -1451,6 +1581,10 @@ func c04Replay(c *Ctx, raw stdjson.RawMessage) {
 	if stdjson.Unmarshal(raw, &k) == nil {
 		if k.What == "map entries reversed" {
 			c04Reversed(c, k)
+			return
+		}
+		if k.What == "embedded layout" {
+			c04EmbeddedLayout(c, k.Layout, k.Vals, k.Salt)
 			return
 		}
 		if strings.HasPrefix(k.What, "embedded structs") || strings.HasPrefix(k.What, "recursive types") || strings.HasPrefix(k.What, "long lists") || strings.HasPrefix(k.What, "known: ") {
@@ -2264,8 +2398,8 @@ func c08Messages(c *Ctx) {
 
 // c08ElementTypes: strict mode and the types announced in the headers of lists, sets and maps: a header that announces
 // another element, key or value type than the target declares is a wrong wire type, with 0, 1 and 2 elements behind it,
-// as a field, inside a nested struct and as the top-level value.  (F-C08-9: for EMPTY sets and empty binary-protocol
-// maps the pinned code returns before it looks at the types; lists are checked also when empty.)
+// as a field, inside a nested struct and as the top-level value.  (F-C08-9, repaired: for EMPTY sets and empty
+// binary-protocol maps the pinned code returned before it looked at the types; lists were checked also when empty.)
 func c08ElementTypes(c *Ctx) {
 	type inner struct {
 		L []string `thrift:"1"`
@@ -2290,7 +2424,7 @@ func c08ElementTypes(c *Ctx) {
 					}
 				}
 				var tgt any = &target{}
-				empty := false // F-C08-9 applies
+				empty := false // the cases of F-C08-9
 				switch kind {
 				case "list":
 					wr.WriteField(thrift.Field{ID: 1, Type: thrift.LIST})
